@@ -431,8 +431,14 @@ func (seq Sequence) Truncate(width int, resolution time.Duration, asOf time.Time
 			if bytesToRemove+Width64bits >= len(seq) {
 				return nil
 			}
-			result = result[bytesToRemove:]
-			result.SetUntil(until)
+			// Build the truncated sequence in a new byte array: writing the new
+			// until into the tail of seq would overwrite the values of a period
+			// of the original, which callers (stored rows, other queries served
+			// by the same scan) still use.
+			truncated := make(Sequence, len(seq)-bytesToRemove)
+			copy(truncated[Width64bits:], seq[Width64bits+bytesToRemove:])
+			truncated.SetUntil(until)
+			result = truncated
 		}
 	}
 
